@@ -24,7 +24,7 @@ COMPONENTS_STUB = ["UDP socket (SimSocket)", "RefServer7959 (independent block-w
 ASSUMPTIONS = ["following the server's smaller block size in later Block1 requests is a SHOULD and is counted, not gated",
                "a representation change without ETag change is undetectable and not generated",
                "a non-block answer in the middle of a Block2 transfer may be accepted as the complete representation"]
-EXPECTED_PROBES = ["block1_multi", "block2_multi", "szx_reduced_block1", "szx_reduced_block2", "misbehave_b1_wrong_num",
+EXPECTED_PROBES = ["misbehave_b2_earlier_block", "block1_multi", "block2_multi", "szx_reduced_block1", "szx_reduced_block2", "misbehave_b1_wrong_num",
                    "misbehave_b1_more_on_final", "misbehave_b2_short", "misbehave_b2_skip", "misbehave_b2_etag_change",
                    "misbehave_b2_etag_presence_change", "block1_acked_without_more_bit", "block1_transfer_rejected_midway", "unfragmented_request_refused_with_size_hint", "retransmitted_block", "unfragmented_1124", "separate_response", "empty_ack_lost_response_delivered", "error_response_mid_transfer", "empty_final_block", "download_from_a_chosen_block_on", "success_code_changes_mid_transfer"]
 
